@@ -10,6 +10,7 @@ CONSTANTS
  MolIdx <- MCMolTwo
  MsgKinds <- MCMsgAll
  MaxMsgs = 1
+ WithEnv = FALSE
  HDev = "none"
 INVARIANT ReadIsCurrent
 INVARIANT FsHoldsWrite
